@@ -269,7 +269,7 @@ theorem forIn_bytes_check (l : List Int) (F : Int → PUnit → Except Err (ForI
   rw [this]
 
 /-- `readChannelish` with the length written as `getD` (the same function: the `match` is decided) -/
-theorem readChannelish_eq (clip : Bool) (status : Nat) (peek bs : List Nat) :
+theorem readChannelish_src_eq (clip : Bool) (status : Nat) (peek bs : List Nat) :
     readChannelish clip status peek bs =
       if !definedStatus status then .error .OSError else
       let size := (specLen status).getD 0 - 1 - peek.length
@@ -290,7 +290,7 @@ theorem src_read_message (cs : Charset) (bs : List Nat) (p : Int) (status : Nat)
       match readChannelish clip status peek bs with
       | .ok (ev, r) => .ok (⟨ev, δ⟩, mkFile r (p + bs.length - r.length))
       | .error e => .error e := by
-  rw [readChannelish_eq]
+  rw [readChannelish_src_eq]
   unfold Src.read_message
   by_cases hdef : definedStatus status = true
   · have hsmall := defined_small status hdef
@@ -429,7 +429,7 @@ theorem readMeta_len (cs : Charset) (bs : List Nat) (e : FEv) (r : List Nat)
 
 theorem readChannelish_len (clip : Bool) (status : Nat) (peek bs : List Nat) (e : FEv) (r : List Nat)
     (h : readChannelish clip status peek bs = .ok (e, r)) : r.length ≤ bs.length := by
-  rw [readChannelish_eq] at h
+  rw [readChannelish_src_eq] at h
   split at h
   · simp at h
   · simp only [] at h
